@@ -78,7 +78,7 @@ def parse_obs(o):
         d[k] = v
     ms = [] if d["m"] == "-" else [tuple(int(x) for x in m.split(":")) for m in d["m"].split(",")]
     ds = [] if d["d"] == "-" else d["d"].split(",")
-    return {"p": int(d["p"]), "c": int(d["c"]), "m": ms, "d": ds, "inj": int(d["inj"]), "n": int(d["n"])}
+    return {"p": int(d["p"]), "c": int(d["c"]), "m": ms, "d": ds, "inj": int(d["inj"]), "n": int(d["n"]), "u": int(d.get("u", 0))}
 
 
 class Track:
